@@ -233,8 +233,9 @@ def decoder_width(prog, rep, rule, qual, maxlen, extra_args):
                 bad = bad or (m, 'consumes %s octets, expected %d' % (k, want))
     key = 'width-decoder:%s' % qual.rsplit('.', 2)[-2] + '.' + qual.rsplit('.', 1)[-1]
     if bad:
-        rep.bad(rule, key, file=f.file, line=f.node.lineno, func=qual,
-                found='prefix length %d: %s' % bad, expected='1 + ceil(m / 8) octets per prefix', key=key)
+        rep.bad(rule, key + ':m=%d' % bad[0], file=f.file, line=f.node.lineno, func=qual,
+                found='prefix length %d: %s' % bad, expected='1 + ceil(m / 8) octets per prefix',
+                key=key + ':m=%d' % bad[0])
     else:
         rep.ok(rule, key, file=f.file, line=f.node.lineno, found='%d lengths evaluated' % checked)
 
